@@ -14,6 +14,10 @@ def nasty_text(rng, n=None):
     for _ in range(n or rng.randint(1, 8)):
         out.append(rng.choice(words))
         out.append(rng.choice(BOUNDARIES + [' ', ' ', '']))
+    if rng.random() < 0.3:
+        # a line longer than any fixed-format column limit: a long unbreakable word (URL / DOI) or a long sentence
+        out.append(rng.choice(['https://example.org/' + 'a' * rng.randint(70, 120), ' '.join(['word%d' % i for i in range(rng.randint(15, 30))])]))
+        out.append(rng.choice(['\n', '', ' tail']))
     return ''.join(out)
 
 
